@@ -228,9 +228,29 @@ func (x *Exec) modularCall(st *State, fr *Frame, site ssa.Instruction, fc *FuncC
 	var res Val
 	results := sig.Results()
 	res = x.freshVal("r."+sanitize(shortName(cname)), results, post)
-	penv := &Env{x: x, st: post, old: pre, vars: map[string]Val{}, pkgPath: env.pkgPath, fc: fc}
+	penv := &Env{x: x, st: post, old: pre, vars: map[string]Val{}, pkgPath: env.pkgPath, fc: fc, ghostScope: map[string]*Term{}}
 	for n, v := range env.vars {
 		penv.vars[n] = v
+	}
+	// a callee that is a monitor operation: atlock() denotes the protected
+	// state at acquisition, i.e. the pre-state with the protected state havoced
+	// under the monitor invariant
+	if fn != nil && len(args) > 0 && args[0].A == nil && args[0].T != nil {
+		if pt, ok := args[0].T.Underlying().(*types.Pointer); ok {
+			if mi := x.monitorOf(pt.Elem(), ""); mi != nil {
+				mid := pre.clone()
+				sd := x.dry
+				x.dry = false
+				x.monitorHavoc(mid, mi, args[0].L[0])
+				x.dry = sd
+				inv := x.monitorInvariant(mid, mi, args[0].L[0])
+				post.assume(inv)
+				for _, c := range mid.pc[len(pre.pc):] {
+					post.assume(c)
+				}
+				penv.atlock = mid
+			}
+		}
 	}
 	x.bindResults(penv, results, res)
 	for _, e := range fc.Ensures {
